@@ -1164,13 +1164,16 @@ func (db *DB) Repair(of Object) (err error) {
 	}
 
 	// we re-index missing uuids
+	fresh := newIterator(db, of, nil)
 	for uuid := range uuids {
 		// we don't re-index already indexed objects
 		if s.isUUIDIndexed(uuid) {
 			continue
 		}
 
-		if o, err = db.getByUUID(of, uuid); err != nil {
+		// every file is decoded into a new Object, as decoding into an already
+		// used one keeps the values of the members missing from the file
+		if o, err = db.getByUUID(fresh.object(), uuid); err != nil {
 			return
 		}
 
